@@ -181,8 +181,33 @@ func (d *dmut) mutate(mi *msgInfo, b []byte, depth int) []byte {
 				}
 				d.op("unpack")
 			}
+		case !fd.IsList() && rec.typ == protowire.BytesType && (fd.Kind() == protoreflect.BytesKind || fd.Kind() == protoreflect.StringKind) && r.intn(3) == 0:
+			// a singular / oneof string or bytes field preceded by an EMPTY occurrence of itself (an encoder never emits
+			// that; last value wins) and, sometimes, followed by a third, different occurrence
+			out = append(out, bytesRec(rec.num, nil), rec)
+			if r.bool() {
+				out = append(out, bytesRec(rec.num, append([]byte("zz"), rec.val...)))
+			}
+			d.op("empty-then-value")
 		default:
 			out = append(out, rec)
+		}
+	}
+	// zero-valued occurrences of absent singular bytes/string fields, then a value (the first write into a nil field)
+	if r.intn(4) == 0 {
+		for i := 0; i < mi.md.Fields().Len(); i++ {
+			fd := mi.md.Fields().Get(i)
+			if fd.IsList() || fd.IsMap() || (fd.Kind() != protoreflect.BytesKind && fd.Kind() != protoreflect.StringKind) {
+				continue
+			}
+			present := false
+			for _, rec := range out {
+				present = present || rec.num == fd.Number()
+			}
+			if !present && r.bool() {
+				out = append(out, bytesRec(fd.Number(), nil), bytesRec(fd.Number(), []byte("after-empty")))
+				d.op("empty-then-value-absent")
+			}
 		}
 	}
 	// pack runs of unpacked repeated scalars
